@@ -112,13 +112,19 @@ def main():
     res['confirmed'] = bool(confirmed)
     json.dump(res, open(os.path.join(out, 'result.json'), 'w'), indent=1)
     if keep and confirmed:
-        dst = os.path.join(ROOT, 'seeded', keep); shutil.rmtree(dst, ignore_errors=True); os.makedirs(dst)
+        dst = os.path.join(ROOT, 'seeded', keep)
+        prev = {}
+        try: prev = json.load(open(os.path.join(dst, 'meta.json'))).get('checks', {})
+        except Exception: pass
+        shutil.rmtree(dst, ignore_errors=True); os.makedirs(dst)
         for f in glob.glob(os.path.join(out, '*')):
             if os.path.isfile(f) and os.path.basename(f) != 'result.json': shutil.copy(f, dst)
         if os.path.isdir(os.path.join(out, 'demo')): shutil.copytree(os.path.join(out, 'demo'), os.path.join(dst, 'demo'))
         m = dict(meta); m['confirmed_by_coordinator'] = {k: res.get(k) for k in ('patch_applies', 'demo_passes_without_patch', 'demo_fails_with_patch', 'existing_tests_pass')}
         m['what_was_run'] = 'lib/seedtest.py: scratch worktree of /repo HEAD; demo without and with the patch; go test of the touched packages with the patch; ./check ' + ' '.join(checks) + ' with VERIF_REPO pointing at the patched worktree'
         m['checks'] = {c: {'detected': bool(v['violation_lines']), 'no_failing_input_found': v['nofail'], 'first': (v['violation_lines'] or [''])[0]} for c, v in res['checks'].items()}
+        for c, v in prev.items():      # results of earlier runs of other checks against the same change are kept
+            m['checks'].setdefault(c, v)
         json.dump(m, open(os.path.join(dst, 'meta.json'), 'w'), indent=1)
     return res
 
